@@ -268,7 +268,10 @@ func (p *Pipeline) reload(previousGeneration *Pipeline) {
 		if previousGeneration != nil {
 			prev = previousGeneration.getFilter(spec.Name())
 		}
-		if prev == nil {
+		// a filter can only inherit from a previous filter of its own
+		// kind (filters assert the type of the previous generation), a
+		// filter whose kind was changed starts afresh.
+		if prev == nil || prev.Kind() != filter.Kind() {
 			filter.Init()
 		} else {
 			filter.Inherit(prev)
